@@ -164,7 +164,7 @@ var c03Args = []string{"null", "true", "-1", "0", "1", "1.5", "1000000", "''", "
 // TestC03BuiltinMisuse: every builtin x every argument tuple of length 0..2
 // (and a sweep of length 3/4 with one varying position).
 func TestC03BuiltinMisuse(t *testing.T) {
-	run := h.Begin("C03", "builtin-misuse", fmt.Sprintf("bounded-exhaustive: every builtin (%d names) called with every argument tuple of length 0..2 over %d representative values (null, booleans, numbers incl. -1/0/1e6/NaN/2^64-1, strings incl. '(' and numeric text, arrays, typed slices, maps, struct, typed nil pointer, time, functions), plus tuples of length 3 and 4 for the 3/4-ary builtins; oracle: Resolve returns (value,nil) or (nil,error), never panics, under a 30 s watchdog; a call whose argument count does not match the documented fixed arity must be an error; non-trivial: every case (each executes a call with non-literal operands)", len(builtinArity), len(c03Args)))
+	run := h.Begin("C03", "builtin-misuse", fmt.Sprintf("bounded-exhaustive: every builtin (%d names) called with every argument tuple of length 0..2 over %d representative values (null, booleans, numbers incl. -1/0/1e6/NaN/2^64-1, strings incl. '(' and numeric text, arrays, typed slices, maps, struct, typed nil pointer, time, functions), plus tuples of length 3 and 4 with one varying position around two plausible fixed tuples, and the full product of triples for the ternary builtins (lpad, rpad, mid, replace, ...: empty pad strings, lengths beyond the text); oracle: Resolve returns (value,nil) or (nil,error), never panics, under a 30 s watchdog; a call whose argument count does not match the documented fixed arity must be an error; non-trivial: every case (each executes a call with non-literal operands)", len(builtinArity), len(c03Args)))
 	defer run.End(t)
 	wd := startWatchdog(t, run, 30*time.Second)
 	defer wd.close()
@@ -202,16 +202,30 @@ func TestC03BuiltinMisuse(t *testing.T) {
 			}
 		}
 		// length 3 and 4: vary each position over all values, others fixed to plausible ones
-		fixed := []string{"'hello'", "'l'", "2", "1"}
+		fixedSets := [][]string{{"'hello'", "'l'", "2", "1"}, {"'hi'", "'l'", "7", "1"}}
 		if b == "addDate" || b == "date" {
-			fixed = []string{"t", "1", "2", "3"}
+			fixedSets = [][]string{{"t", "1", "2", "3"}}
 		}
-		for n := 3; n <= 4; n++ {
-			for pos := 0; pos < n; pos++ {
-				for _, v := range c03Args {
-					args := append([]string{}, fixed[:n]...)
-					args[pos] = v
-					try(b+"("+strings.Join(args, ",")+")", must(n))
+		for _, fixed := range fixedSets {
+			for n := 3; n <= 4; n++ {
+				for pos := 0; pos < n; pos++ {
+					for _, v := range c03Args {
+						args := append([]string{}, fixed[:n]...)
+						args[pos] = v
+						try(b+"("+strings.Join(args, ",")+")", must(n))
+					}
+				}
+			}
+		}
+		if ar == 3 {
+			// the full product for the ternary builtins (without the 10^6 length)
+			for _, a1 := range c03Args {
+				for _, a2 := range c03Args {
+					for _, a3 := range c03Args {
+						if a3 != "1000000" && a2 != "1000000" && a1 != "1000000" {
+							try(b+"("+a1+","+a2+","+a3+")", "")
+						}
+					}
 				}
 			}
 		}
@@ -346,8 +360,9 @@ func boundPads(t *rapid.T, n *ref.Node) {
 				}
 			}
 			if len(x.Kids) > 2 {
-				// pad strings of at most 8 bytes
-				x.Kids[2] = &ref.Node{Kind: "str", Val: "xy", Src: "'xy'"}
+				// pad strings of at most 8 bytes, the empty one included
+				pad := rapid.SampledFrom([]string{"xy", "xy", "", "-", "01234567"}).Draw(t, "pad")
+				x.Kids[2] = &ref.Node{Kind: "str", Val: pad, Src: "'" + pad + "'"}
 			}
 			x.Spread = false
 		}
